@@ -338,8 +338,9 @@ def run_property(pid, tier, seed, jobs=None, time_cap=None):
         'wall_s': round(wall, 2),
         'violations': len(violations),
     }
-    os.makedirs(os.path.join(VERIF, 'evidence'), exist_ok=True)
-    with open(os.path.join(VERIF, 'evidence', '%s.json' % pid), 'w', encoding='utf8') as fh:
+    evdir = os.environ.get('VERIF_EVIDENCE_DIR') or os.path.join(VERIF, 'evidence')
+    os.makedirs(evdir, exist_ok=True)
+    with open(os.path.join(evdir, '%s.json' % pid), 'w', encoding='utf8') as fh:
         json.dump(evidence, fh, indent=1, ensure_ascii=False, default=str)
     sys.stdout.write('%s tier=%s states=%d transitions=%d validated=%d nontrivial=%d known_hits=%d '
                      'violations=%d wall=%.1fs%s\n'
@@ -350,7 +351,7 @@ def run_property(pid, tier, seed, jobs=None, time_cap=None):
 
 
 def write_replay(pid, clause, case, wstr, detail, origin):
-    d = os.path.join(VERIF, 'replays', pid)
+    d = os.path.join(os.environ.get('VERIF_REPLAY_DIR') or os.path.join(VERIF, 'replays'), pid)
     os.makedirs(d, exist_ok=True)
     h = hashlib.sha1((clause + '|' + wstr).encode('utf8', 'backslashreplace')).hexdigest()[:10]
     safe_clause = re.sub(r'[^A-Za-z0-9_.-]', '_', clause)[:60]
